@@ -776,7 +776,7 @@ func C09(tier string) int {
 	}
 	dl := start.Add(80 * time.Second)
 	if tier == "thorough" {
-		dl = start.Add(25 * time.Minute)
+		dl = start.Add(10 * time.Minute)
 	}
 	var meta []c09Job
 	for _, b := range []string{"array", "hashmap"} {
